@@ -488,6 +488,45 @@ def derivativesAt (d : List R) (input : Cont R) : Outcome (List R) :=
 
 end Derivs
 
+/-! ### single elements as records, 0-dimensional containers, moving elements -/
+
+/-- Row-major position of an index tuple in a shape; `none` when a coordinate is out of range
+    (`get_index_direct`'s bounds test, Model/Tensor.lean). -/
+def position (shape : Shape String) (indexes : List Nat) : Option Nat :=
+  if indexes.length ≠ shape.length then none
+  else getIndexDirect indexes (computeStrides shape) shape
+
+/-- `TensorAccess::try_get_as_record` (tensors/indexing.rs:504, 544, 584) /
+    `RecordMatrix::try_get_as_record` (mod.rs:582): `Record::from_existing(element, history)`;
+    `pos` is the element's position in the access order, `none` for an index out of range. -/
+def tryGetAsRecord (c : Cont R) (pos : Option Nat) : Option (Rec R) :=
+  match pos with
+  | none => none
+  | some k => (c.elems[k]?).map fun e => ⟨e.1, c.history, e.2⟩
+
+/-- `get_as_record` (indexing.rs:491, 531, 571, mod.rs:570): panics out of range. -/
+def getAsRecord (c : Cont R) (pos : Option Nat) : Outcome (Rec R) :=
+  match c.tryGetAsRecord pos with
+  | some r => .ok r
+  | none => .panic .explicit
+
+/-- `From<Record> / From<&Record> for RecordTensor<…, 0>` (mod.rs:2685, 2703). -/
+def ofRecord (r : Rec R) : Cont R := ⟨[], [(r.number, r.index)], r.history⟩
+
+/-- `From<RecordTensor<…, 0>> / From<&RecordTensor<…, 0>> for Record` (mod.rs:2650, 2670):
+    `Record::from_existing(scalar.view().scalar(), scalar.history)`. -/
+def toRecord (c : Cont R) : Outcome (Rec R) :=
+  match c.elems with
+  | e :: _ => .ok ⟨e.1, c.history, e.2⟩
+  | [] => .panic .unwrap
+
+/-- two elements exchanged in place through `get_reference_mut` / `try_get_reference_mut`
+    (mod.rs:2549, 2626) — "moving data around" -/
+def swapElems (c : Cont R) (i j : Nat) : Cont R :=
+  match c.elems[i]?, c.elems[j]? with
+  | some x, some y => { c with elems := (c.elems.set i y).set j x }
+  | _, _ => c
+
 /-! ### Records in, records out (iterators.rs, `map`, `map_mut`) -/
 
 /-- `InvalidRecordIteratorError` (iterators.rs:382). -/
